@@ -476,7 +476,7 @@ func (c *Ctx) singleWrite() {
 				// not in a loop
 				b := call.Block()
 				for _, p := range b.Preds {
-					if b.Dominates(p) {
+					if Dominates(b, p) {
 						other = cn + " inside a loop"
 					}
 				}
